@@ -150,6 +150,120 @@ def _run_frame(item):
     return row
 
 
+def _exec_variant(c, bells):
+    """one request of the case on the real SDK -> controller -> executor; returns (log of executed operations with
+    deliveries, sdk error, fault, fault raised by a correction)"""
+    from . import rig
+    from netqasm.sdk.build_types import NVHardwareConfig
+    from netqasm.sdk.epr_socket import EPRSocket
+    from netqasm.sdk.qubit import Qubit
+    from netqasm.sdk.transpile import NVSubroutineTranspiler
+    kw: Dict[str, Any] = {}
+    if c["hw"] == "nv":
+        kw["hardware_config"] = NVHardwareConfig(6)
+    elif c["hw"] == "nvt":
+        kw["compiler"] = NVSubroutineTranspiler          # the builder then compiles for single-communication-qubit hardware
+    sock = EPRSocket("bob")
+    conn = rig.VConnection("alice", max_qubits=6, epr_sockets=[sock], nv=(c["hw"] == "nvt"), **kw)
+    ex = conn.ex
+    ex.log_qfree = True
+    ex.meas_script = [1, 0, 1, 1] * 10
+    conn.link = rig.AutoLink(ex, conn.stack, bell=bells, stepwise=True, mark=True)
+    err, fault, faultcorr, mark = "", False, False, 0
+    try:
+        bys = [Qubit(conn) for _ in range(c["by"])]
+        if bys:
+            conn.flush()
+        mark = len(ex.gate_log)
+        n, variant, recv = c["n"], c["variant"], c["role"] == "recv"
+        if recv:
+            conn.link.remote.append(dict(remote=1, purpose=0, type="K", n=n))
+        ek = dict(expect_phi_plus=c["expect_flag"]) if recv else {}
+
+        def post_m(conn_, q, pair):
+            q.measure()
+
+        def post_h(conn_, q, pair):
+            q.H()
+
+        f = sock.recv_keep if recv else sock.create_keep
+        if variant == "keep":
+            f(n, **ek)
+        elif variant == "keep_info":
+            (sock.recv_keep_with_info if recv else sock.create_keep_with_info)(n, **ek)
+        elif variant == "post_h":
+            f(n, post_routine=post_h, **ek)
+        elif variant == "post_m":
+            f(n, post_routine=post_m, **ek)
+        elif variant == "seq":
+            f(n, post_routine=post_m, sequential=True, **ek)
+        elif variant == "rsp":
+            sock.recv_rsp(n, **ek)
+        elif variant == "rsp_info":
+            sock.recv_rsp_with_info(n, **ek)
+        try:
+            conn.flush()
+        except (rig.ControllerFault, rig.Stuck) as exc:
+            fault = True
+            cur = getattr(ex, "current_cmd", None)
+            imm = tuple(getattr(getattr(cur, a, None), "value", None) for a in ("angle_num", "angle_denom")) if cur is not None else ()
+            faultcorr = isinstance(exc, rig.ControllerFault) and getattr(cur, "mnemonic", "") in ("rot_x", "rot_z") and imm == (16, 4)
+    except Exception as exc:
+        err = f"{type(exc).__name__}: {exc}"[:160]
+    log = []
+    for g in ex.gate_log[mark:]:
+        mn, virt, imm, phys = g[0], g[1], g[2], g[3]
+        log.append({"mn": mn, "qs": [q + 1 for q in phys], "imm": [int(x) for x in imm]})
+    return log, err, fault, faultcorr
+
+
+_REFS: Dict[str, Any] = {}
+
+
+def _run_uni(item):
+    """the case's request with its Bell states, and the two reference runs with every pair in Phi+"""
+    import logging
+    logging.disable(logging.CRITICAL)
+    i, c = item
+    key = json.dumps([c["variant"], c["hw"], c["role"], c["n"], c["by"]])
+    if key not in _REFS:
+        on = _exec_variant(dict(c, expect_flag=True), [0] * c["n"])
+        off = _exec_variant(dict(c, expect_flag=False), [0] * c["n"])
+        _REFS[key] = (on, off)
+    (ron, eon, fon, _), (roff, eoff, foff, _) = _REFS[key]
+    act, err, fault, faultcorr = _exec_variant(dict(c, expect_flag=c["expect"]), c["bells"])
+    big = any(q > 6 for lg in (ron, roff, act) for g in lg for q in g["qs"])
+    return dict(c, id=i, refon=ron, refoff=roff, act=act, err=err or eon or eoff or ("more than 6 physical qubits" if big else ""),
+                fault=fault or fon or foff, faultcorr=faultcorr and not (fon or foff))
+
+
+def uni_cases(tier: str, rng: random.Random) -> List[Dict[str, Any]]:
+    out = []
+    nmax = 2 if tier == "quick" else 3
+    for hw in ("nvt", "generic"):
+        for variant in ("keep", "keep_info", "post_m", "seq", "rsp", "rsp_info", "post_h"):
+            if hw != "generic" and variant == "post_h":
+                continue
+            if hw == "generic" and variant not in ("post_h", "post_m", "seq"):
+                continue            # (generic hardware is judged gate by gate by BellFrame; these three cross-check the two formulations)
+            for role in ("recv", "create"):
+                if role == "create" and variant.startswith("rsp"):
+                    continue
+                for expect in (True, False):
+                    if role == "create" and not expect:
+                        continue
+                    for n in range(1, nmax + 1):
+                        tuples = list(itertools.product(range(4), repeat=n))
+                        if role == "create" or not expect or hw != "nvt":
+                            tuples = rng.sample(tuples, min(len(tuples), 4))
+                        for bells in tuples:
+                            for by in (0, 1):
+                                if hw != "generic" and n + by > 4:
+                                    continue
+                                out.append(dict(kind="uni", variant=variant, hw=hw, role=role, expect=expect, n=n, bells=list(bells), by=by))
+    return out
+
+
 def _run_meas(item):
     """one Bell state x basis x expectation: the four raw outcome pairs on the real SDK"""
     from . import rig
@@ -202,15 +316,26 @@ def run(prop: str, tier: str) -> int:
     tmp = C.tmpdir()
     try:
         rng = random.Random(C.seed() * 7919 + 10)
-        cases = frame_cases(tier, rng) + meas_cases()
+        cases = frame_cases(tier, rng) + meas_cases() + uni_cases(tier, rng)
         with ProcessPoolExecutor(max_workers=C.ncpu()) as pool:
             rows = list(pool.map(_dispatch, [(i + 1, c) for i, c in enumerate(cases)], chunksize=16))
-        res = C.run_tlc_sharded("BellFrame", rows, tmp, shards=C.ncpu(), cfg="BellFrame.cfg")
+        for r in rows:
+            if r["kind"] == "uni":
+                r["nv"] = r["hw"]                     # label used when grouping witnesses
+                r.setdefault("exc", "")
+                r.setdefault("bystanders", [])
+                r.setdefault("events", [])
+        res = C.run_tlc_sharded("BellFrame", [r for r in rows if r["kind"] != "uni"], tmp, shards=C.ncpu(), cfg="BellFrame.cfg")
+        resu = C.run_tlc_sharded("BellUnitary", [r for r in rows if r["kind"] == "uni"], tmp, shards=C.ncpu(), tag="u", cfg="BellUnitary.cfg")
+        res.verdicts += resu.verdicts
+        res.ok_ids += resu.ok_ids
+        res.distinct += resu.distinct
+        res.generated += resu.generated
         bad, skipped = {}, {}
         for v in res.verdicts:
             if v[1] == "not-judged":
                 r = rows[v[2] - 1]
-                k_ = f"{r['variant']} {'NV' if r['nv'] else 'generic'} {r['role']} n={r['n']} bystanders={r['by']}: {(r['exc'] or r['err'])[:80]}"
+                k_ = f"{r['variant']} {_hw(r)} {r['role']} n={r['n']} bystanders={r['by']}: {(r['exc'] or r['err'])[:80]}"
                 skipped[k_] = skipped.get(k_, 0) + 1
                 continue
             bad.setdefault(v[2], v)
@@ -235,26 +360,34 @@ def run(prop: str, tier: str) -> int:
         for key, lst in sorted(groups.items()):
             lst.sort(key=lambda t: t[0])
             bells0, r, v = lst[0]
-            total = sum(1 for x in rows if x["kind"] == "frame" and all(x[f] == r[f] for f in ("variant", "nv", "role", "expect", "n", "by")))
+            total = sum(1 for x in rows if x["kind"] == r["kind"] and all(x[f] == r[f] for f in ("variant", "nv", "role", "expect", "n", "by")))
             sha = hashlib.sha256(json.dumps([t[0] for t in lst]).encode()).hexdigest()[:12]
-            w = {"variant": r["variant"], "hardware": "nv" if r["nv"] else "generic", "role": r["role"], "expect": r["expect"],
+            w = {"variant": r["variant"], "hardware": _hw(r), "role": r["role"], "expect": r["expect"],
                  "pairs": r["n"], "bystanders": r["by"], "failing": len(lst), "of": total, "tuples": sha, "first": bells0}
-            V.add(v[1], w, f"{r['variant']} ({'NV' if r['nv'] else 'generic'}, {r['role']}, expect_phi_plus={r['expect']}), {r['n']} pair(s), "
+            V.add(v[1], w, f"{r['variant']} ({_hw(r)}, {r['role']}, expect_phi_plus={r['expect']}), {r['n']} pair(s), "
                   f"{r['by']} other live qubit(s) on physical {r['bystanders']}: {len(lst)} of {total} Bell-state tuples fail with {v[1]}; first {bells0}: at event {v[3]} of "
                   f"{[(e['a'], e['p'], e['b'], e['q']) if e['a'] == 'deliver' else (e['a'], e['ax'], e['q'], e['q2']) for e in r['events']]} {r['exc']} {r['err']}", r)
         nframe = sum(1 for r in rows if r["kind"] == "frame")
+        nuni = sum(1 for r in rows if r["kind"] == "uni")
         cov = {
             "states": res.distinct, "transitions": res.generated, "traces_validated_against_impl": len(rows),
             "evaluations": len(rows),
-            "distinct_nontrivial": len({json.dumps([r["variant"], r["nv"], r["role"], r["expect"], r["bells"], r["by"]]) for r in rows if r["kind"] == "frame" and r["n"] >= 2}) + sum(1 for r in rows if r["kind"] == "meas"),
+            "distinct_nontrivial": len({json.dumps([r["kind"], r["variant"], r["nv"], r["role"], r["expect"], r["bells"], r["by"]]) for r in rows if r["kind"] in ("frame", "uni") and r["n"] >= 2}) + sum(1 for r in rows if r["kind"] == "meas"),
+            "unitary_cases_nv_transpiler": nuni,
             "rule": f"{nframe} frame traces: keep-type API variant {VARIANTS} x generic / NV hardware x role x expect_phi_plus x 1..{3 if tier == 'quick' else 4} pairs x Bell-state tuples (all for receivers that expect Phi+) x 0..2 other live qubits; "
-                    f"{len(rows) - nframe} measure-directly groups: recv_measure end to end and the result object with known bases x 4 Bell states x 6 named bases x expectation on/off x 4 raw outcome pairs; non-trivial = at least two pairs, or a measure group",
+                    f"{len(rows) - nframe - nuni} measure-directly groups: recv_measure end to end and the result object with known bases x 4 Bell states x 6 named bases x expectation on/off x 4 raw outcome pairs; non-trivial = at least two pairs, or a measure group",
             "samples": [cases[0], cases[len(cases) // 2]], "exhaustive": tier != "quick", "checker_cmd": res.cmd,
             "events_by_kind": _kinds(rows),
         }
         return V.finish("model_checking", cov, ASSUME)
     finally:
         shutil.rmtree(tmp, ignore_errors=True)
+
+
+def _hw(r):
+    if r["kind"] == "uni":
+        return {"nvt": "nv-transpiler", "generic": "generic/unitary", "nv": "nv/unitary"}[r["hw"]]
+    return "nv" if r["nv"] else "generic"
 
 
 def _kinds(rows):
@@ -266,7 +399,8 @@ def _kinds(rows):
 
 
 def _dispatch(item):
-    return _run_frame(item) if item[1]["kind"] == "frame" else _run_meas(item)
+    k = item[1]["kind"]
+    return _run_frame(item) if k == "frame" else (_run_uni(item) if k == "uni" else _run_meas(item))
 
 
 def replay_case(prop, case, tmp):
